@@ -20,6 +20,13 @@ resolved, arguments bound to the callee's parameters) and decide on the CFG:
       call no entry of a container field of the transformed request (headers, params; also through an alias, a copy that
       is sent instead, or a method the request is handed to) is replaced or removed in favour of a value that does not
       come from the transform - the transform performs the profile's dynamic placements under free names.
+* R14 'same metadata, same order' over repeated check-ins: whenever a message carries a metadata blob and the decoder holds
+      a private key, the decoder generator yields the metadata before the packets / before it ends - both when the blob is
+      not yet in the decoder's metadata cache and when it already is (the cache only saves the RSA decryption); a
+      `yield from <generator method of the package>` is followed one level (a generator's `return <value>` yields nothing).
+* R15 both sides of the router's URI-prefix test are in the same form: the `uri` field parse_raw_http builds is a *selection*
+      of the start line (token, path component, codec re-coding) - no percent-decoding, case folding, rewriting or path
+      normalisation that get_uris / submit_uri (the configured URIs, verbatim - R2) do not undergo as well.
 
 A subject that cannot be located is reported as undecided, a located subject that does not satisfy the condition as
 violated.
@@ -130,6 +137,28 @@ assumption* (`_tv` / `_spec`); the only iteration is the fixpoint of `_resolve` 
       so every fixed name is the placement of some well-formed profile; a value re-computed from the request itself or
       a popped value that is used is undecided.  What an *external* callee (httpx, logging) does with the request is not
       analysed.
+* R14 5 (case analysis over the code's own boolean "the blob is a key of the cache": the cache is located by role - an
+      attribute of self the decoder or a generator method it delegates to fills entry-wise -, the two cases are the two
+      outcomes of the membership / `.get(..) is None` test the code itself makes; both are realisable: a first check-in, and
+      a repeated check-in or a second pass over a capture); 2 (CFG of the decoder generator specialised under the named
+      assumption "metadata blob present and truthy, self.priv present, blob cached / not cached"; reachability from ENTRY to
+      every packet yield and to EXIT *avoiding* the statements that yield a value; normal exits only - a raise is not an
+      exit); 3 (a test is looked at with the locals that have exactly one reaching definition at that statement substituted;
+      the blob followed through argument binding into the parameters of a `yield from` callee, one level deep; a cache
+      test reachable from a store into the cache is left symbolic).  Verdict: a yield-free path all of whose relevant tests
+      are decided by the assumption (or do not read the metadata / key / cache / a package helper, also through reaching
+      definitions) is a violation; a path that exists only through a loop that may not iterate, an exception handler, an
+      unclassified test or an unseen callee makes the obligation undecided.  Lemma (language semantics): in a generator
+      function `return <value>` produces no item; `yield from <non-empty display>` produces one.
+* R15 1 (HttpRequest(..) constructions resolved, `uri` bound to its field; external callees by their import-resolved names);
+      3 (the value followed backwards through *all* reaching definitions, unpacked / iterated values as a whole, to the
+      parameter); 6 (the finite tables `_SELECTIONS` / `_RECODINGS` / `_SELECT_FUNCS` - results are sub-sequences or codec
+      re-codings of the subject - and `_VALUE_TRANSFORMS` - documented stdlib functions that are not the identity on URIs:
+      percent-(de)coding, case folding, replace/translate/re.sub, normpath; the same table is applied to the inlined values
+      stored to self.get_uris / self.submit_uri).  Verdict: a located transformation on the parser side that the
+      configured side does not have is a violation (URIs are free printable profile strings, so some well-formed profile has
+      a URI on which it is not the identity); the same transformation on both sides, or a step outside the tables, is
+      undecided.  No URI is ever transformed by the checker.
 * R6  obligations of `rules.c04.run`, R7 obligations of `rules.c19.r5`, imported unchanged - their technique is stated
       in (and audited with) those modules.
 """
@@ -502,10 +531,13 @@ def run(ctx):
         "payload); the decoder derives and stores the session keys from freshly decrypted metadata whenever either default key is "
         "missing (private key plus only one of the two keys is sufficient key material); nothing replaces or removes an entry of the "
         "headers / params of the transformed request between the transform call and the sending call (the transform performs the profile's "
-        "`header` / `parameter` placements under free names - client defaults belong into the initial request). "
+        "`header` / `parameter` placements under free names - client defaults belong into the initial request); "
+        "the decoder yields the metadata of a check-in on every path, whether the encrypted blob is already in its metadata cache or not "
+        "(a repeated check-in / a second pass decodes to the same packets); the uri parse_raw_http hands to the router is an untransformed "
+        "selection of the start line, as the configured URI prefixes it is compared with are kept verbatim. "
         "Whole-session histories are not decided."
     )
-    rep.not_decided = ["whole-session decoding over all interleavings", "metadata_cache / beacon_keys evolution over time", "packet contents",
+    rep.not_decided = ["whole-session decoding over all interleavings", "metadata_cache / beacon_keys evolution over time (R14 only asks that a cached blob is still yielded, not that the cached value is the right one)", "packet contents",
                        "which transform is chosen for a request that matches both request routes (same verb, one URI a prefix of the other)",
                        "what the HTTP client library emits for the arguments it is given (header order, encoding of the query) and how the peer captures it",
                        "the splitting of the header block into lines and of the start line into its three parts",
@@ -536,6 +568,12 @@ def run(ctx):
         "R13: documented mapping semantics - in {**m, k: v}, m | o, dict(m, **kw), m.update(o), m |= o the later / right / keyword entries win, m.setdefault never "
         "replaces an entry; header / parameter names of a placement are free profile strings, so any fixed name written after the transform is some profile's placement; "
         "external callees (httpx, logging) are assumed not to modify the request they are given",
+        "named assumptions of R14 (the message carries a truthy metadata blob, self.priv is present, the blob is / is not yet a key of the mapping the decoder "
+        "fills entry-wise) decide only the blob, self.priv, `<blob> [not] in self.<cache>` and `self.<cache>.get(<blob>)` [is None]; both cache states are realisable "
+        "(first check-in; repeated check-in or second pass); lemma: `return <value>` in a generator yields nothing; exceptional exits are not judged",
+        "R15: the tables of sub-sequence selections (split/partition/strip family, urlsplit/urlparse components, slices), codec re-codings (decode/encode) and of "
+        "stdlib value transformations (unquote*/quote*, lower/upper/casefold.., replace/translate/re.sub, normpath..) with their documented semantics; which "
+        "component is selected is judged by C16, not here",
         "R6/R7 are the obligations of rules.c04 / rules.c19.r5 (their trusted base applies)",
     ]
     r1(ctx)
@@ -549,6 +587,8 @@ def run(ctx):
     r11(ctx)
     r12(ctx)
     r13(ctx)
+    r14(ctx)
+    r15(ctx)
     # the traffic decoder is only as good as the transform layer it routes to: C04's obligations on
     # HttpDataTransform.transform/recover are necessary conditions of C07 as well
     from rules import c04
@@ -1239,8 +1279,9 @@ def _self_writes(ctx, f, depth=1):
     return out
 
 
-def _r4_decoder(ctx):
-    ir = ctx.repo.func("c2.C2Http.iter_recover_http")
+def _decoder_yields(ctx, ir):
+    """(yield nodes of the decoder generator, the ones that can produce a CallbackPacket / TaskPacket built in place,
+    {side class: packet structs yielded under "the recovered data is an instance of that class"})."""
     cfg = ctx.cfg(ir)
     fv = FuncView.of(ir.node)
     ys = [n for n in body_walk(ir.node) if isinstance(n, (ast.Yield, ast.YieldFrom))]
@@ -1299,6 +1340,15 @@ def _r4_decoder(ctx):
                 packet_yields.add(y)
             got |= k
         result[side] = got
+    return ys, packet_yields, result
+
+
+def _r4_decoder(ctx):
+    ir = ctx.repo.func("c2.C2Http.iter_recover_http")
+    cfg = ctx.cfg(ir)
+    fv = FuncView.of(ir.node)
+    ys, packet_yields, result = _decoder_yields(ctx, ir)
+    sides = {"c2.ClientC2Data": "CallbackPacket", "c2.ServerC2Data": "TaskPacket"}
     all_got = set().union(*result.values())
     if not all_got:
         _emit(ctx, "R4", "AGREE", ir, "packet classes", None if ys else False, "no yield of a CallbackPacket(..)/TaskPacket(..) built in place located" if ys else "the decoder yields nothing")
@@ -2463,6 +2513,350 @@ def r12(ctx):
         ctx.undecided("R12", "AGREE", ir, text_v, "; ".join(sorted(set(unknown))) or "the keys are stored by a method call, not by an assignment in the decoder")
     else:
         ctx.ob("R12", "AGREE", ir, text_v, True, f"self.beacon_keys = {sorted(set(good))}", plain[0])
+
+
+# ---------------------------------------------------------------------------- R14: every check-in yields its metadata
+def _subst_at(ctx, f, e, at, depth=0, via=None):
+    """(expression e with every local that has exactly ONE reaching definition at statement `at` replaced by the value of
+    that definition - recursively, looked at from the defining statement -, [defining statements used])."""
+    via = [] if via is None else via
+
+    class T(ast.NodeTransformer):
+        def visit_Name(self, n):
+            if not isinstance(n.ctx, ast.Load) or depth > 4:
+                return n
+            rd = reaching_defs(ctx, f, n.id, at)
+            if len(rd) == 1 and rd[0][1] is not None and isinstance(rd[0][0], ast.stmt):
+                via.append(rd[0][0])
+                return _subst_at(ctx, f, rd[0][1], rd[0][0], depth + 1, via)[0]
+            return n
+
+    return T().visit(copy.deepcopy(e)), via
+
+
+def _cache_stores(g):
+    """{attribute of self: [statements]} of the mappings held in attributes of self that generator g fills entry-wise:
+    `self.<a>[k] = v`, `self.<a>.setdefault/update/__setitem__(..)`."""
+    out = {}
+    for st in statements(g.node):
+        tg = []
+        if isinstance(st, ast.Assign):
+            tg = [t.value for t in st.targets if isinstance(t, ast.Subscript)]
+        elif isinstance(st, ast.Expr) and isinstance(st.value, ast.Call) and isinstance(st.value.func, ast.Attribute) and st.value.func.attr in ("setdefault", "update", "__setitem__"):
+            tg = [st.value.func.value]
+        for t in tg:
+            d = dotted(t) or ""
+            if d.startswith("self.") and d.count(".") == 1:
+                out.setdefault(d[5:], []).append(st)
+    return out
+
+
+def _is_blob(e, blob_params=()):
+    """Does the expression denote the encrypted metadata blob of the message: `<recovered data>.metadata` or a parameter
+    it was bound to?"""
+    e = strip_cast(e)
+    if isinstance(e, ast.Name):
+        return e.id in blob_params
+    return isinstance(e, ast.Attribute) and e.attr == "metadata" and dotted(e.value) != "self"
+
+
+def _checkin_atom(cache_attrs, blob_params, hit):
+    """Leaf evaluator under the named assumption "the message carries a (non-empty) metadata blob, the decoder holds a
+    private key, and the blob is [hit: already / not hit: not yet] a key of the decoder's metadata cache".  Decides the
+    blob and self.priv (truthy, not None), `<blob> [not] in self.<cache>` and `self.<cache>.get(<blob>)` (is None exactly
+    when not cached; falsy when not cached); `hit is None`: the cache tests stay unknown."""
+    def cache(e):
+        if isinstance(e, ast.Call) and isinstance(e.func, ast.Attribute) and e.func.attr == "keys" and not e.args and not e.keywords:
+            e = e.func.value
+        d = dotted(e)
+        return d is not None and d.startswith("self.") and d.count(".") == 1 and d[5:] in cache_attrs
+
+    def lookup(e):
+        e = strip_cast(e)
+        return (isinstance(e, ast.Call) and isinstance(e.func, ast.Attribute) and e.func.attr == "get" and cache(e.func.value) and not e.keywords
+                and 1 <= len(e.args) <= 2 and _is_blob(e.args[0], blob_params) and (len(e.args) == 1 or is_none(e.args[1])))
+
+    def present(e):
+        return _is_blob(e, blob_params) or dotted(strip_cast(e)) == "self.priv"
+
+    def atom(e):
+        if present(e):
+            return True
+        if lookup(e):
+            return False if hit is False else None
+        if isinstance(e, ast.Compare) and len(e.ops) == 1:
+            op, l, r = e.ops[0], e.left, e.comparators[0]
+            if isinstance(op, (ast.Is, ast.IsNot, ast.Eq, ast.NotEq)):
+                for a, b in ((l, r), (r, l)):
+                    if is_none(b) and present(a):
+                        return isinstance(op, (ast.IsNot, ast.NotEq))
+                    if is_none(b) and lookup(a) and hit is not None:
+                        return (not hit) == isinstance(op, (ast.Is, ast.Eq))
+            if isinstance(op, (ast.In, ast.NotIn)) and _is_blob(l, blob_params) and cache(r) and hit is not None:
+                return hit == isinstance(op, ast.In)
+        return None
+
+    return atom
+
+
+def _mentions_checkin(ctx, f, e, at, cache_attrs, depth=0):
+    """Could the outcome of test e depend on the check-in state the assumption talks about (or on code this module does not
+    see): an identifier naming the metadata / the private key / the cache, or a call of a package helper - also through
+    the reaching definitions of the locals it reads?"""
+    for n in ast.walk(e):
+        ident = n.id if isinstance(n, ast.Name) else n.attr if isinstance(n, ast.Attribute) else None
+        if ident is not None and ("metadata" in ident.lower() or "priv" in ident.lower() or ident in cache_attrs):
+            return True
+        if isinstance(n, ast.Call):
+            cal = _callee(ctx, f, n)
+            if cal is None or cal.kind == "func" or (cal.kind == "unresolved" and (dotted(n.func) or "").startswith("self.")):
+                return True
+        if isinstance(n, ast.Name) and isinstance(n.ctx, ast.Load) and depth < 3:
+            for st, v in reaching_defs(ctx, f, n.id, at):
+                if v is not None and isinstance(st, ast.stmt) and _mentions_checkin(ctx, f, v, st, cache_attrs, depth + 1):
+                    return True
+    return False
+
+
+def _always_yields(ctx, g, cache, blob_params, hit, exclude=(), targets=None, depth=1):
+    """Does generator g produce an item on every normally completing path from its entry to `targets` (default: its
+    exit) under the check-in assumption?  -> (True | False | None, detail).  The CFG of g is specialised under the
+    assumption (tests looked at with single-reaching-definition locals substituted; a cache test that can be reached
+    from a store into the cache is left symbolic).  A statement that yields a value counts; `yield from <non-empty
+    display>` counts; `yield from <package generator>(..)` counts when that generator always yields (one level deep,
+    the blob followed into its parameters).  False: a path passes no yield and every test on it is decided by the
+    assumption or does not depend on the check-in state; None: the path depends on a loop running at least once, an
+    exception handler, a test this rule cannot classify or a callee it does not see into."""
+    cfg = ctx.cfg(g)
+    fv = FuncView.of(g.node)
+    cache_attrs = set(cache)
+    writes = [cfg.node(st) for sts in cache.values() for st in sts if cfg.has(st)]
+    spec = copy.copy(cfg)
+    spec.g = cfg.g.copy()
+    spec._idom = None
+    spec._ipdom = None
+    used = []
+    for n, st in cfg.stmt.items():
+        if not isinstance(st, (ast.If, ast.While)):
+            continue
+        e, via = _subst_at(ctx, g, st.test, st)
+        stale = any(w == x or cfg.reaches(w, x) for w in writes for x in [n] + [cfg.node(s) for s in via if cfg.has(s)])
+        atom = _checkin_atom(cache_attrs, blob_params, None if stale else hit)
+        v = _tv(st.test, atom)
+        if v is None:
+            v = _tv(e, atom)
+        if v is None:
+            continue
+        used.append(st)
+        dead = cfg.edge_node(st, "false" if v else "true")
+        if spec.g.has_edge(n, dead):
+            spec.g.remove_edge(n, dead)
+    via_nodes, soft, open_, bad = set(), set(), [], []
+    excl = {id(x) for x in exclude}
+    for y in body_walk(g.node):
+        if not isinstance(y, (ast.Yield, ast.YieldFrom)) or id(y) in excl:
+            continue
+        st = fv.stmt_of(y)
+        if st is None or not cfg.has(st) or y.value is None:
+            continue
+        counts = True
+        if isinstance(y, ast.YieldFrom):
+            v = strip_cast(y.value)
+            cal = _callee(ctx, g, v) if isinstance(v, ast.Call) else None
+            h = cal.func if cal is not None and cal.kind == "func" else None
+            if isinstance(v, (ast.List, ast.Tuple)) and v.elts and not any(isinstance(x, ast.Starred) for x in v.elts):
+                pass
+            elif h is not None and depth > 0 and any(isinstance(x, (ast.Yield, ast.YieldFrom)) for x in body_walk(h.node)):
+                b = _bind(ctx, g, v)
+                bp = {p for p, a in b.items() if p != "**" and a is not None and _is_blob(_subst_at(ctx, g, a, st)[0], blob_params)}
+                hc = dict(cache)
+                for a, sts in _cache_stores(h).items():
+                    hc[a] = sts
+                ok, det = _always_yields(ctx, h, hc, bp, hit, depth=depth - 1)
+                if ok is False:
+                    counts = False
+                    bad.append(f"`yield from {src(v)[:50]}` produces nothing on some path: {det}")
+                elif ok is None:
+                    open_.append(f"`yield from {src(v)[:50]}`: {det}")
+            else:
+                open_.append(f"`yield from {src(v)[:50]}`: what it produces is not seen")
+        if counts:
+            via_nodes.add(cfg.node(st))
+            for a in fv.ancestors(st):
+                if isinstance(a, (ast.For, ast.AsyncFor)):
+                    soft.add(cfg.edge_node(a, "exhaust"))
+                elif isinstance(a, ast.While):
+                    soft.add(cfg.edge_node(a, "false"))
+    soft |= {n for n, st in cfg.stmt.items() if isinstance(st, ast.ExceptHandler)}
+    targets = [EXIT] if targets is None else list(targets)
+    hard = via_nodes | soft
+    strict = [t for t in targets if spec.reaches(ENTRY, t, avoiding=hard)]
+    loose = [t for t in targets if spec.reaches(ENTRY, t, avoiding=via_nodes)]
+    if strict:
+        free = []
+        for n, st in cfg.stmt.items():
+            if isinstance(st, (ast.If, ast.While)) and not any(st is x for x in used) and n not in hard and spec.reaches(ENTRY, n, avoiding=hard) \
+                    and any(spec.reaches(n, t, avoiding=hard) for t in strict) and _mentions_checkin(ctx, g, st.test, st, cache_attrs):
+                # a test both outcomes of which lead to a target without a yield does not matter
+                outs = [x for x in spec.g.successors(n)]
+                if not all(x not in hard and any(x == t or spec.reaches(x, t, avoiding=hard) for t in strict) for x in outs):
+                    free.append(st)
+        path = " -> ".join(spec.witness_path(ENTRY, strict[0], avoiding=hard)[-4:])
+        if free:
+            return None, "; ".join(bad + [f"a path without a yield ({path}) depends on `{src(free[0].test)[:60]}`, which the assumption does not decide"])
+        return False, "; ".join(bad + [f"a path to {'the end' if strict[0] == EXIT else 'a packet yield'} passes no yield of the metadata ({path})"])
+    if loose:
+        return None, "; ".join(bad + ["a path without a yield exists through a loop that may not iterate / an exception handler"])
+    if open_:
+        return None, "; ".join(open_)
+    return True, "every path passes a yield"
+
+
+def r14(ctx):
+    """'Same metadata, same order': a check-in message is decoded to its BeaconMetadata packet *every* time - whether the
+    decoder meets the encrypted blob for the first time or has it in its metadata cache (a repeated check-in in a capture,
+    a capture read twice with one decoder)."""
+    ir = ctx.repo.func("c2.C2Http.iter_recover_http")
+    cfg = ctx.cfg(ir)
+    fv = FuncView.of(ir.node)
+    text = "the metadata of a check-in is yielded whether or not it is cached"
+    ys, packet_yields, _result = _decoder_yields(ctx, ir)
+    if not ys:
+        ctx.undecided("R14", "EXIT", ir, text, "the decoder is not a generator this rule can follow (no yield)")
+        return
+    cache = _cache_stores(ir)
+    for c in fn_calls(ir.node):
+        cal = _callee(ctx, ir, c)
+        h = cal.func if cal is not None and cal.kind == "func" else None
+        if h is not None and h.cls == ir.cls and h.module is ir.module and h.fq != ir.fq:
+            for a, sts in _cache_stores(h).items():
+                cache.setdefault(a, [])
+    pst = [fv.stmt_of(p) for p in ys if p in packet_yields]
+    targets = [cfg.node(s) for s in pst if s is not None and cfg.has(s)] + [EXIT]
+    cases = [(False, "blob not cached (first check-in)")] + ([(True, "blob already cached (repeated check-in / second pass)")] if cache else [])
+    res = [(label,) + _always_yields(ctx, ir, cache, set(), hit, exclude=[p for p in ys if p in packet_yields], targets=targets) for hit, label in cases]
+    verdict = False if any(v is False for _l, v, _d in res) else None if any(v is None for _l, v, _d in res) else True
+    _emit(ctx, "R14", "EXIT", ir, text, verdict,
+          ("with metadata in the message and a private key, every path to the packets / the end passes a yield of the metadata: " if verdict else
+           "a message that carries metadata must be decoded to its metadata packet each time (the cache only saves the RSA decryption): ")
+          + "; ".join(f"[{l}] {d}" for l, v, d in res if verdict or v is not True))
+
+
+# ---------------------------------------------------------------------------- R15: the routed URI is in wire form
+_VALUE_TRANSFORMS = {  # callable name -> what it does to a URI (documented semantics; none of them is a sub-string selection)
+    "unquote": "percent-decoding", "unquote_to_bytes": "percent-decoding", "unquote_plus": "percent-decoding", "quote": "percent-encoding",
+    "quote_plus": "percent-encoding", "quote_from_bytes": "percent-encoding", "lower": "case folding", "upper": "case folding",
+    "casefold": "case folding", "swapcase": "case folding", "title": "case folding", "capitalize": "case folding", "normcase": "case folding",
+    "replace": "rewriting", "translate": "rewriting", "sub": "rewriting", "subn": "rewriting", "expandtabs": "rewriting",
+    "normpath": "path normalisation", "abspath": "path normalisation", "realpath": "path normalisation", "unescape": "entity decoding",
+}
+_SELECTIONS = ("split", "rsplit", "partition", "rpartition", "splitlines", "strip", "lstrip", "rstrip", "removeprefix", "removesuffix")
+_RECODINGS = ("decode", "encode")
+_SELECT_FUNCS = ("urlsplit", "urlparse", "bytes", "str", "bytearray", "memoryview", "list", "tuple")
+
+
+def _call_name(ctx, f, c):
+    """('func' | 'method', bare name) of a call; package callees -> ('package', fq)."""
+    cal = _callee(ctx, f, c)
+    if cal is not None and cal.kind in ("func", "class", "struct"):
+        return "package", cal.fq
+    if cal is not None and cal.kind == "external" and cal.fq:
+        return "func", cal.fq.split(".")[-1]
+    if isinstance(c.func, ast.Attribute):
+        return "method", c.func.attr
+    return "func", dotted(c.func) or "?"
+
+
+def _value_chain(ctx, f, e, at, found, unknown, depth=0):
+    """Follow the value of expression e (evaluated at statement `at`) back towards the parameters of f through
+    selections (an element / slice / attribute of a value, split / partition / strip family, urlsplit / urlparse), codec
+    re-codings (decode / encode) and reaching definitions (every one of them; an unpacked or iterated value is followed as a
+    whole).  Value transformations of the table met on the way are added to `found`, anything else to `unknown`."""
+    e = strip_cast(e)
+    if depth > 40:
+        unknown.append(src(e)[:50])
+        return
+    if isinstance(e, ast.Constant):
+        return
+    if isinstance(e, ast.Name):
+        rd = reaching_defs(ctx, f, e.id, at)
+        if not rd and e.id not in params(f.node):
+            unknown.append(src(e))
+        for st, v in rd:
+            if v is not None:
+                _value_chain(ctx, f, v, st if isinstance(st, ast.stmt) else at, found, unknown, depth + 1)
+            elif isinstance(st, ast.Assign):
+                _value_chain(ctx, f, st.value, st, found, unknown, depth + 1)
+            elif isinstance(st, (ast.For, ast.AsyncFor)):
+                _value_chain(ctx, f, st.iter, st, found, unknown, depth + 1)
+            elif st is not f.node:
+                unknown.append(f"{e.id} bound by {type(st).__name__}")
+        return
+    if isinstance(e, (ast.Attribute, ast.Subscript)):
+        return _value_chain(ctx, f, e.value, at, found, unknown, depth + 1)
+    if isinstance(e, ast.IfExp):
+        for alt in (e.body, e.orelse):
+            _value_chain(ctx, f, alt, at, found, unknown, depth + 1)
+        return
+    if isinstance(e, (ast.GeneratorExp, ast.ListComp)) and len(e.generators) == 1 and isinstance(e.elt, ast.Name) \
+            and isinstance(e.generators[0].target, ast.Name) and e.elt.id == e.generators[0].target.id:
+        # `(x for x in s if ..)`: a filtered sub-sequence of s, its elements unchanged (like decode(errors='ignore'))
+        return _value_chain(ctx, f, e.generators[0].iter, at, found, unknown, depth + 1)
+    if isinstance(e, ast.Call):
+        kind, name = _call_name(ctx, f, e)
+        subject = e.func.value if kind == "method" else e.args[0] if e.args else None
+        if kind != "package" and name in _VALUE_TRANSFORMS and subject is not None:
+            found.append((name, _VALUE_TRANSFORMS[name], src(e)[:60]))
+            return _value_chain(ctx, f, subject, at, found, unknown, depth + 1)
+        if subject is not None and ((kind == "method" and name in _SELECTIONS + _RECODINGS) or (kind == "func" and name in _SELECT_FUNCS)):
+            return _value_chain(ctx, f, subject, at, found, unknown, depth + 1)
+    unknown.append(src(e)[:50])
+
+
+def r15(ctx):
+    """Routing is by verb and URI *prefix*, with the configured URIs kept exactly as the profile spells them (R2) and
+    requested exactly like that by the client (R4): so the `uri` the parser hands to the router has to be the path of the
+    request target as it is on the wire - a selection of the start line, not a transformed value."""
+    f = ctx.repo.func("c2.parse_raw_http")
+    fv = FuncView.of(f.node)
+    text = "request uri and configured URI prefixes are compared in the same (wire) form"
+    ctors = [c for c in fn_calls(f.node) if _fq(ctx, f, c) == _REQ]
+    if not ctors:
+        ctx.undecided("R15", "AGREE", f, text, "no HttpRequest(..) built in the parser")
+        return
+    init = ctx.repo.func("c2.C2Http.__init__")
+    istores = _stores(init.node)
+    conf = {}
+    for a in ("self.get_uris", "self.submit_uri"):
+        got = set()
+        for _st, v in istores.get(a, []):
+            if v is not None:
+                for n in ast.walk(_inl(init, v)):
+                    if isinstance(n, ast.Call):
+                        kind, name = _call_name(ctx, init, n)
+                        if kind != "package" and name in _VALUE_TRANSFORMS:
+                            got.add(_VALUE_TRANSFORMS[name])
+        conf[a] = got
+    for c in ctors:
+        b = _bind(ctx, f, c)
+        u = b.get("uri")
+        if u is None:
+            ctx.undecided("R15", "AGREE", f, text, f"the uri argument of {src(c)[:60]} cannot be located", c)
+            continue
+        found, unknown = [], []
+        _value_chain(ctx, f, u, fv.stmt_of(c), found, unknown)
+        kinds = {k for _n, k, _t in found}
+        if not found and not unknown:
+            ok = not (conf["self.get_uris"] | conf["self.submit_uri"])
+            _emit(ctx, "R15", "AGREE", f, text, True if ok else None, "the uri field is a selection of the start line (split / path component / codec re-coding only)" +
+                  ("" if ok else f"; the configured URIs are transformed ({sorted(conf['self.get_uris'] | conf['self.submit_uri'])}) - R2 judges that"), c)
+        elif kinds and not all(kinds <= conf[a] for a in conf):
+            ctx.ob("R15", "AGREE", f, text, False, "the uri handed to the router went through " + ", ".join(f"{t} ({k})" for _n, k, t in found) +
+                   "; get_uris / submit_uri hold the configured URIs verbatim and the client requests them verbatim, so a URI on which this is not the "
+                   "identity (e.g. one with a %XX escape / an upper-case letter) no longer has its own prefix: every message of that beacon is rejected or mis-routed", c)
+        else:
+            ctx.undecided("R15", "AGREE", f, text, ("the same transformation is applied to the configured URIs: whether the two sides still agree is not decided; " if kinds else "") +
+                          (f"not followed: {unknown[:3]}" if unknown else ""), c)
 
 
 def r5(ctx):
